@@ -397,6 +397,13 @@ theorem C11_script_heap_correct (c : Case)
   rw [hR]
   rfl
 
+/-- every free name the generated code may use is one `_make_repr_script` pins in `globs` (the list
+    is regenerated from the source, T1): none can be shadowed by a global of the class's module -/
+theorem C11_free_names_pinned (attrs : List Field) :
+    (IR.genFree attrs).all (fun nb => Generated.c17ReprFixed.contains nb.1 && IR.bindingOk nb) = true := by
+  unfold IR.genFree
+  split <;> decide
+
 /-- **C11_script_model_meets_spec**: the model generator's script passes the script check for every
     well-formed class: on each member of the canonical operand family it does what `C11.spec` demands -/
 theorem C11_script_model_meets_spec (c : Script.Case) (hwf : Script.wf c = true) :
